@@ -29,8 +29,8 @@ func c09ValFromBytes(b []byte) (c09Val, int, error) {
 	return append(c09Val{}, b...), len(b), nil
 }
 
-// sha256({45,37}) and sha256({235,161}) agree in their first 31 bits
-var c09Keys = []c09Key{{45, 37}, {235, 161}, {'a'}}
+// sha256({45,37}) and sha256({235,161}) agree in their first 31 bits; {45} is a proper prefix of {45,37}
+var c09Keys = []c09Key{{45, 37}, {235, 161}, {45}}
 
 func c09NewMap(store kvstore.KVStore) Map[[32]byte, c09Key, c09Val] {
 	return NewMap[[32]byte](store, typeutils.ByteArray32ToBytes, typeutils.ByteArray32FromBytes,
@@ -147,7 +147,7 @@ type c09State struct {
 // the root is compared with the root of a canonical construction of the same contents, and with the roots of all
 // earlier states of the history (equal exactly when the contents are).
 //
-//verif:h prop=C09 p.ops=3/4 p.maxlen=1/2 cover=set-new,overwrite,delete-hit,delete-miss,commit,reopen,empty-value,reinsert runs=3000000 timeout=900/900 steps=3000000
+//verif:h prop=C09 p.ops=3/4 p.maxlen=2/2 cover=set-new,overwrite,delete-hit,delete-miss,commit,reopen,empty-value,reinsert solverms=5000 portfolio=15 runs=3000000 timeout=900/900 steps=3000000
 func H_C09_map() {
 	store := mapdb.NewMapDB()
 	m := c09NewMap(store)
@@ -215,6 +215,62 @@ func H_C09_map() {
 		verifrt.Assert(bwd, "different contents have the same root")
 		states = append(states, c09State{root, *model})
 	}
+}
+
+// H_C09_reopen: histories that start from a committed, re-opened map: one or two keys are set and committed, the
+// store is re-opened, then p.ops free operations follow, then Commit and a second re-opening; every observer and
+// the root are compared on the final instance. (Reaches Commit-after-Commit sequences that H_C09_map needs 4+
+// operations for.)
+//
+//verif:h prop=C09 p.ops=2/3 p.maxlen=1/2 cover=overwrite-only,mixed solverms=5000 portfolio=15 runs=3000000 timeout=900/900 steps=3000000
+func H_C09_reopen() {
+	store := mapdb.NewMapDB()
+	m := c09NewMap(store)
+	model := &c09Model{}
+	maxLen := verifrt.Param("maxlen", 1)
+	prefill := verifrt.Choose("prefill", 2)
+	for k := 0; k <= prefill; k++ {
+		v := c09Value("pre", maxLen)
+		_ = m.Set(c09Keys[k], v)
+		model.present[k], model.val[k] = true, v
+	}
+	verifrt.Assert(m.Commit() == nil, "Commit failed on a working store")
+	m = c09NewMap(store)
+	onlyOverwrites := true
+	n := verifrt.Param("ops", 2)
+	for e := 0; e < n; e++ {
+		switch op := verifrt.Choose("op", 7); {
+		case op < 3:
+			v := c09Value("v", maxLen)
+			if !model.present[op] {
+				onlyOverwrites = false
+			}
+			verifrt.Assert(m.Set(c09Keys[op], v) == nil, "Set failed on a working store")
+			model.present[op], model.val[op] = true, v
+		case op < 6:
+			k := op - 3
+			del, err := m.Delete(c09Keys[k])
+			verifrt.Assert(err == nil && del == model.present[k], "Delete does not report whether the key was present")
+			if model.present[k] {
+				onlyOverwrites = false
+			}
+			model.present[k], model.val[k] = false, nil
+		default:
+			verifrt.Assert(m.Commit() == nil, "Commit failed on a working store")
+		}
+	}
+	if onlyOverwrites {
+		verifrt.Cover("overwrite-only")
+	} else {
+		verifrt.Cover("mixed")
+	}
+	before := m.Root()
+	verifrt.Assert(m.Commit() == nil, "Commit failed on a working store")
+	m2 := c09NewMap(store)
+	verifrt.Assert(m2.WasRestoredFromStorage(), "a map re-opened after a Commit does not claim to be restored")
+	verifrt.Assert(m2.Root() == before, "a re-opened map reports a different root than the committed one")
+	c09Check(m2, model)
+	verifrt.Assert(m2.Root() == c09Canonical(model), "the root of a re-opened map differs from the root of a fresh map with the same contents")
 }
 
 // H_C09_set: the set flavour (Add/Delete/Has/Size/Stream/Commit/re-open) over the same keys. The values are the empty
